@@ -60,6 +60,9 @@ def observe(g, plan, sc, ref):
         kinds = sorted(set(e for v in plan.values() for e in v))
         vio.append({"sig": "C12:truncated:" + "+".join(kinds), "what": "no quit was requested, yet schedule %r yields %d of %d guesses"
                     % (plan, len(out), len(ref_out)), "plan": replay_plan})
+    if r.get("foreign"):
+        vio.append({"sig": "C12:keyboard-thread-printed-guess", "what": "the keyboard/status thread called print_guess (%r) while handling %r: "
+                    "status handling must not touch the guess output" % (r["foreign"][:2], plan), "plan": replay_plan})
     if r["stray_stdout"]:
         vio.append({"sig": "C12:stdout-noise", "what": "session wrote %r to stdout" % r["stray_stdout"][:80], "plan": replay_plan})
     saved = None
@@ -204,6 +207,31 @@ def run(ctx):
             corr.append(("session:" + name, False, "model and implementation outcomes differ for schedules %s" % idx[:10]))
         else:
             corr.append(("session:" + name, True, ""))
+    # (a') true concurrency: status requests back to back from a second thread while the real print_guess writes to
+    # stdout (runtime test: it can only catch a race it happens to hit)
+    storms = 0
+    for i in range(40):
+        if storms >= ctx.scale(2, 6):
+            break
+        rs = rulesets.gen_ruleset(ctx.rng, with_markov=False, max_bases=4, max_len=4)
+        try:
+            g = impl_next.load_grammar(rs, sc)
+        except Exception:
+            continue
+        items, _, capped, _ = impl_next.full_stream(g, cap=3000, check_heap=False)
+        if capped:
+            continue
+        ref = sched.run_session(g, {}, sc)["out"]
+        if len(ref) < 1500 or len(ref) > 60000:
+            continue
+        storms += 1
+        for rep in range(ctx.scale(4, 10)):
+            got = sched.run_session(g, {}, sc, storm=True)["out"]
+            dist["storm_runs"] = dist.get("storm_runs", 0) + 1
+            if got != ref:
+                vio.append({"sig": "C12:status-storm", "what": "status requests from the keyboard thread running concurrently with guess generation "
+                            "changed stdout: %d lines instead of %d" % (len(got), len(ref)), "replay": {"ruleset": rs, "storm": True}})
+                break
     # (b) stdin conditions through the real CLI
     code = common.copy_code_tree(common.scratch())
     for i in range(ctx.scale(2, 6)):
@@ -225,6 +253,15 @@ def replay(ctx, data):
     if "ruleset" not in inp:
         return []
     rs = inp["ruleset"]
+    if inp.get("storm"):
+        sc = common.scratch()
+        g = impl_next.load_grammar(rs, sc)
+        ref = sched.run_session(g, {}, sc)["out"]
+        for rep in range(8):
+            got = sched.run_session(g, {}, sc, storm=True)["out"]
+            if got != ref:
+                return [{"sig": "C12:status-storm", "what": "%d lines instead of %d" % (len(got), len(ref)), "replay": inp}]
+        return []
     if "stdin" in inp:
         code = common.copy_code_tree(common.scratch())
         v, _ = stdin_conditions(ctx, code, rs, rs.get("name", "S0"))
